@@ -73,3 +73,22 @@ Fixpoint infos_wf_from (n : Z) (i : Z) (l : list info) : Prop :=
   end.
 
 Definition infos_wf (l : list info) : Prop := infos_wf_from (len l) 0 l.
+
+(* ---- lookup types 1 and 2 as scans *)
+(* type 1: every glyph the lookup does not skip gets the record of the first subtable covering it *)
+Definition singlepos_spec (m : mode) (mt : match_type) (gd : option gdef) (subs : list single_pos) (x : info) : outcome info :=
+  if match_glyph mt gd (i_id x) then singlepos m subs x else Ok x.
+
+Fixpoint map_out {A B} (f : A -> outcome B) (l : list A) : outcome (list B) :=
+  match l with
+  | [] => Ok []
+  | x :: t => y <- f x ;; t' <- map_out f t ;; Ok (y :: t')
+  end.
+
+(* type 2 (and 3): the action is applied to every pair of CONSECUTIVE unskipped glyphs, left to right; the
+   second glyph of a pair is the first glyph of the next pair *)
+Fixpoint fold_pairs (f : Z -> Z -> action) (pairs : list (Z * Z)) (l : list info) : outcome (list info) :=
+  match pairs with
+  | [] => Ok l
+  | (a, b) :: t => l' <- f a b l ;; fold_pairs f t l'
+  end.
